@@ -335,7 +335,8 @@ func (t *streamableHTTPClientTransport) send(
 	_, hasError := jsonResp["error"]
 	if hasID && respID != nil {
 		if requestIDKey(respID) != requestIDKey(req.ID) {
-			return nil, fmt.Errorf("%w: response id %v does not match request id %v", ErrResponseParsing, respID, req.ID)
+			// The peer's id is not quoted: error texts are pattern-matched by the retry classifier.
+			return nil, fmt.Errorf("%w: response id does not match request id %v", ErrResponseParsing, req.ID)
 		}
 	} else if !hasError {
 		return nil, fmt.Errorf("%w: response carries no id (request id %v)", ErrResponseParsing, req.ID)
